@@ -3,10 +3,25 @@
 (* Trace validation of golib's real decoders against FailClosed.           *)
 (* Events (harness/c04), one history per valid encoding:                   *)
 (*   Reset kind sub                                                        *)
-(*   Obj len full consumed okcuts overrun                                  *)
+(*   Obj via len full consumed okcuts overrun                              *)
 (*        full decode outcome and bytes consumed; okcuts = EVERY strict    *)
 (*        prefix length whose decode returned an object; overrun = max     *)
 (*        over those of (bytes the decoder claims consumed - prefix length)*)
+(*        via = "buffer", or "conn/<how the peer ends the stream>/<chunk>" *)
+(*        when the same reads pull from a connection that delivers the     *)
+(*        prefix and then ends (clean close, error, close with last data)  *)
+(*   Lazy len n seqs maxalloc at                                           *)
+(*        second stage: on every object a decode of this encoding or of a  *)
+(*        hostile variant returned, for every public accessor A the call   *)
+(*        sequence A, A, Write, decode(written), A was run on a fresh      *)
+(*        object; seqs = every distinct <<A, r1, r2, w, r3>> observed;     *)
+(*        maxalloc = largest allocation of one whole sequence, accalloc =  *)
+(*        largest allocation of a single accessor call                     *)
+(*   Tag reg pos w nest acc n okcodes                                      *)
+(*        a position holding a type tag by construction (the object's own  *)
+(*        or a nested object's), overwritten with n codes: okcodes = the   *)
+(*        codes for which the decode (and accessor acc, if the tag lies in *)
+(*        a lazily decoded blob) returned normally                         *)
 (*   Hostile len patch n outcomes maxalloc atpos overrun                   *)
 (*        one overwrite pattern tried at n offsets: set of outcomes,       *)
 (*        largest allocation of a single decode, largest overrun           *)
@@ -30,6 +45,11 @@ Step1(e) == IsEv(l, e) /\ l' = l + 1 /\ UNCHANGED vars
 
 TraceReset == Step1("Reset")
 
+\* the registries (codes the factories of the format create a decoder for)
+CONSTANTS ValueCodes, StepCodes, PackCodes, ServiceCodes
+Registry(reg) == CASE reg = "value" -> ValueCodes [] reg = "step" -> StepCodes
+                   [] reg = "pack" -> PackCodes [] reg = "service" -> ServiceCodes [] OTHER -> {}
+
 TraceObj == /\ Step1("Obj")
             /\ LET e == Trace[l] IN
                  /\ e.full \in {"ok", "failed"}
@@ -46,7 +66,21 @@ TraceHostile == /\ Step1("Hostile")
                      /\ AdmissibleRun(e.len, "failed", 0, e.maxalloc)
                      /\ e.overrun <= 0
 
-TraceNext == TraceReset \/ TraceObj \/ TraceHostile
+TraceLazy == /\ Step1("Lazy")
+             /\ LET e == Trace[l] IN
+                  /\ \A i \in 1..Len(e.seqs) :
+                        LET r == e.seqs[i].r IN Len(r) = 4 /\ LazySeqOK(r[1], r[2], r[3], r[4])
+                  \* one accessor call is a decode of the bytes the object kept: the bound of a decode
+                  /\ AdmissibleRun(e.len, "failed", 0, e.accalloc)
+                  \* a whole sequence = decode, A, A, write, decode, A
+                  /\ AdmissibleSeq(e.len, 6, e.maxalloc)
+
+TraceTag == /\ Step1("Tag")
+            /\ LET e == Trace[l] IN
+                 /\ e.reg \in {"value", "step", "pack", "service"}
+                 /\ \A i \in 1..Len(e.okcodes) : TagRunOK(e.okcodes[i], Registry(e.reg), "ok")
+
+TraceNext == TraceReset \/ TraceObj \/ TraceHostile \/ TraceLazy \/ TraceTag
 
 TraceSpec == TraceInit /\ [][TraceNext]_tvars
 Hwm == HwmNote(l)
